@@ -9,7 +9,7 @@ from harness.common import cf, cflist, close, differential, hexf, unhex
 
 ID = "C09"
 IMPORTS = "From Evo Require Import Num Linalg Lie.\n"
-COQ_TARGETS = ["theories/LieProofs.vo", "theories/LieTie.vo"]
+COQ_TARGETS = ["theories/LieProofs.vo", "theories/LieTie.vo", "generated/LieGen.vo"]
 TRUSTED = ["model Evo.Lie written by hand from evo/core/lie_algebra.py; ties: (T) harness/pyast_np.py re-translates hat, vee, se3, sim3, "
            "so3_from_se3, se3_inverse, sim3_scale, sim3_inverse, is_so3, relative_so3, relative_se3 from the current source into "
            "EvoGen.LieGen on every run and Evo.LieTie proves each translated function equal to the model's for EVERY NumOps instance "
